@@ -207,10 +207,11 @@ def split_doc(rng, selfloop=False):
             nodes[pid]["deps"][1] = (nodes[pid]["deps"][1][0], top + 1)
     # a holder whose lazily loaded entries refer to: a leaf, objects with nested loads, references that fail (the
     # cell stays empty and the next load tries again), each as several types
-    holder = top + 1
+    holder = top
     cand = [leaf] + [pid for (pid, _) in parents] + [i for i in nodes if i not in (leaf,)][-6:] + [t_free, t_array]
     cells = [(rng.randrange(3), r) for r in cand]
     cells += [(ty, parents[0][0]) for ty in range(3)]
+    # (a number two beyond the last object: the number right after the table is answered as a free object)
     for i, (pid, what) in enumerate(parents):
         if what == "unlisted":
             nodes[pid]["deps"][1] = (nodes[pid]["deps"][1][0], top + 2)
